@@ -586,10 +586,11 @@ fn gen_op(rng: &mut Rng, cl: &Client, g: &mut Gen, p: &Params) -> Op {
         0 => {
             g.ncalls += 1;
             // deadlines: distinct milliseconds per call so armed timers never tie
-            let slot = g.ncalls * 1_000_000;
             let rel = *rng.pick(&[0u64, 300_000, 2_000_000, 20_000_000, 500_000_000, 3_600_000_000_000]);
             let sub = *rng.pick(&[0u64, 1, 999_999, 400_000]);
-            let d = if rel == 0 && rng.chance(1, 2) { g.now / 2 } else { g.now + rel + slot * 16 + sub };
+            // far deadlines land on distinct milliseconds: (multiple of 16 ms) + (call number mod 16)
+            let far = ((g.now + rel) / 32_000_000 + 1) * 32_000_000 + (g.ncalls % 16) * 2_000_000 + sub;
+            let d = if rel == 0 && rng.chance(1, 2) { g.now / 2 } else if rel < 2_000_000 { g.now + rel } else { far };
             g.deadlines.push(d);
             Op::Call {
                 h: *rng.pick(&handles),
